@@ -179,6 +179,22 @@ pub fn gen_mutated_valid(seed: u64, shard: u64, i: u64) -> Case {
         cfg.s3 = false;
         cfg.fold = true;
     }
+    if r.chance(1, 4) {
+        // a server configured with an odd region / service: the request names the same ones and is validly signed, so it
+        // travels through string-to-sign, key lookup, comparison and the conversion of the response
+        static LONG: std::sync::OnceLock<String> = std::sync::OnceLock::new();
+        let long: &str = LONG.get_or_init(|| "r".repeat(300));
+        let weird = ["", "é", " ", "\u{0}", "%2F", "日本-1", "us east", long];
+        if r.coin() {
+            cfg.region = r.pick(&weird).to_string();
+        }
+        if r.coin() {
+            cfg.service = r.pick(&weird).to_string();
+        }
+    }
+    if r.chance(1, 4) {
+        cfg.reqs = crate::props::c05::gen_reqs(&mut r).0;
+    }
     let l = gen_logical(&mut r, &cfg, &GenOpts::default());
     let mut sr = Rng::keyed(seed, "C08", "mutated-valid-spell", shard, i);
     let mut sp = Speller {
@@ -512,6 +528,110 @@ pub fn heavy_cases(seed: u64) -> Vec<(String, Case)> {
         let (case, _) = make_case(&l, &c2, &mut sp, &ov, 0);
         out.push((format!("binary-1MiB-fold-{}", fold), case));
     }
+    // header-sized cases: a 1 MiB signed header value, 100 000 Authorization parameters, 20 000 names in SignedHeaders,
+    // 30 000 header lines under a required prefix
+    {
+        let now = Inst::from_civil(2015, 8, 30, 12, 36, 0, 0);
+        let base = |extra: &dyn Fn(&mut Wire), auth: Vec<u8>, reqs: Reqs| -> Case {
+            let mut w = Wire::new("GET", b"/heavy?a=1");
+            w.header("host", b"h");
+            w.header("x-amz-date", b"20150830T123600Z");
+            extra(&mut w);
+            w.header("authorization", &auth);
+            let mut c = Cfg::basic("us-east-1", "service", now);
+            c.reqs = reqs;
+            Case {
+                wire: w,
+                cfg: c,
+                script: Script::derive("secret"),
+            }
+        };
+        let plain_auth = b"AWS4-HMAC-SHA256 Credential=AKIA/20150830/us-east-1/service/aws4_request, SignedHeaders=host;x-amz-date;x-custom, Signature=0000".to_vec();
+        let mut big = Vec::with_capacity(1_048_576);
+        for k in 0..1_048_576usize {
+            big.push(match k % 7 {
+                0 | 1 => b' ',
+                2 => b'\t',
+                3 => 0xff,
+                _ => b'v',
+            });
+        }
+        out.push(("header-value-1MiB-signed-fold-false".to_string(), base(&|w| w.header("x-custom", &big), plain_auth.clone(), Reqs::default())));
+        let mut many = b"AWS4-HMAC-SHA256 ".to_vec();
+        for k in 0..100_000 {
+            many.extend_from_slice(format!("P{}=v{}, ", k % 1000, k).as_bytes());
+        }
+        many.extend_from_slice(b"Credential=AKIA/20150830/us-east-1/service/aws4_request, SignedHeaders=host;x-amz-date, Signature=0000");
+        out.push(("authorization-100000-params-fold-false".to_string(), base(&|_| {}, many, Reqs::default())));
+        let mut names = b"AWS4-HMAC-SHA256 Credential=AKIA/20150830/us-east-1/service/aws4_request, SignedHeaders=host;x-amz-date".to_vec();
+        for k in 0..20_000 {
+            names.extend_from_slice(format!(";x-n{}", k).as_bytes());
+        }
+        names.extend_from_slice(b", Signature=0000");
+        out.push(("signedheaders-20000-names-fold-false".to_string(), base(&|_| {}, names, Reqs::default())));
+        out.push((
+            "header-lines-30000-under-prefix-fold-false".to_string(),
+            base(
+                &|w| {
+                    for k in 0..30_000 {
+                        w.header(&format!("x-amz-meta-{}", k), b"v");
+                    }
+                },
+                plain_auth.clone(),
+                Reqs {
+                    prefixes: vec!["x-amz-".to_string()],
+                    build: 1,
+                    ..Default::default()
+                },
+            ),
+        ));
+        out.push((
+            "header-one-name-10000-lines-fold-false".to_string(),
+            base(
+                &|w| {
+                    for k in 0..10_000 {
+                        w.header("x-custom", format!("v{}", k).as_bytes());
+                    }
+                },
+                plain_auth.clone(),
+                Reqs::default(),
+            ),
+        ));
+    }
+    // large form bodies under a declared charset, multi-byte text landing on every offset, also cut inside the last sequence
+    for label in ["utf-8", "utf-16le", "utf-16be", "shift_jis", "gbk", "gb18030", "big5", "euc-kr", "iso-2022-jp", "windows-1252"] {
+        for size in [8191usize, 8192, 8193, 65_535, 65_537, 1_048_576] {
+            for lead in [0usize, 1, 3] {
+                let mut body: Vec<u8> = std::iter::repeat(b'a').take(lead).collect();
+                body.extend_from_slice(b"k=");
+                let unit = "日本語€é".as_bytes();
+                while body.len() < size {
+                    body.extend_from_slice(unit);
+                }
+                body.truncate(size);
+                for cut in [0usize, 1] {
+                    let mut b2 = body.clone();
+                    b2.truncate(size - cut);
+                    let mut w = Wire::new("POST", b"/charset?u=1");
+                    w.header("host", b"h");
+                    w.header("x-amz-date", b"20150830T123600Z");
+                    w.header("content-type", format!("application/x-www-form-urlencoded; charset={}", label).as_bytes());
+                    w.header("authorization", b"AWS4-HMAC-SHA256 Credential=AKIA/20150830/us-east-1/service/aws4_request, SignedHeaders=host;x-amz-date, Signature=0000");
+                    w.body = b2;
+                    let mut c = Cfg::basic("us-east-1", "service", Inst::from_civil(2015, 8, 30, 12, 36, 0, 0));
+                    c.fold = true;
+                    if size > 100_000 && (lead != 0 || cut != 0) {
+                        continue;
+                    }
+                    out.push((format!("charset-{}-{}-lead{}-cut{}-fold-true", label, size, lead, cut), Case {
+                        wire: w,
+                        cfg: c,
+                        script: Script::derive("secret"),
+                    }));
+                }
+            }
+        }
+    }
     // URIs at the http crate's limit and deep paths
     for (name, uri) in [
         ("uri-65534-a", {
@@ -779,6 +899,73 @@ fn direct_api(t: &mut Tally, seed: u64, n: u64) {
         } else {
             t.count("direct/authenticator");
         }
+        // the canonical-request routes with caller-made arguments: a hostile request taken apart by from_request_parts, its
+        // auth parameters, an AuthParams value assembled by hand (builder with any subset of fields, any timestamp text, any
+        // signed-header list), canonical_request over arbitrary lists
+        if i % 4 == 0 {
+            let hostile = gen_hostile(&mut r);
+            let Ok(req) = crate::exec::build_request(&hostile.wire) else {
+                continue;
+            };
+            let (parts, body) = req.into_parts();
+            let opts = scratchstack_aws_signature::SignatureOptions {
+                s3: hostile.cfg.s3,
+                url_encode_form: hostile.cfg.fold,
+            };
+            let mut b2 = SigV4Authenticator::builder();
+            let mask = r.below(32);
+            if mask & 1 != 0 {
+                b2.credential(cred.clone());
+            }
+            if mask & 2 != 0 {
+                b2.signature(s.clone());
+            }
+            if mask & 4 != 0 {
+                b2.session_token(s.clone());
+            }
+            if mask & 8 != 0 {
+                b2.request_timestamp(ts);
+            }
+            if mask & 16 != 0 {
+                b2.canonical_request_sha256([7u8; 32]);
+            }
+            let ts_text = r.pick(&["20150830T123600Z", "2015-08-30T12:36:00Z", "", "junk", "20150830T123600+2400", "99991231T235959-0001", "00000101T000000+1400"]).to_string();
+            let list: Vec<String> = match r.below(5) {
+                0 => Vec::new(),
+                1 => vec!["host".into(), "host".into(), "not-there".into(), "".into()],
+                2 => (0..10_000).map(|k| format!("x-n{}", k)).collect(),
+                3 => vec![s.clone(), "HOST".into(), "é".into()],
+                _ => vec!["host".into(), "x-amz-date".into()],
+            };
+            t.eval();
+            let res = catch_unwind(AssertUnwindSafe(|| {
+                use scratchstack_aws_signature::NO_ADDITIONAL_SIGNED_HEADERS;
+                if let Ok((cr, _parts, _body)) = c::CanonicalRequest::from_request_parts(parts, body, opts) {
+                    let _ = format!("{:?}", cr);
+                    let _ = cr.canonical_request(&list);
+                    let _ = cr.canonical_request_sha256(&list);
+                    if let Ok(ap) = cr.get_auth_parameters(&NO_ADDITIONAL_SIGNED_HEADERS) {
+                        let _ = format!("{:?}", ap);
+                        let _ = cr.get_authenticator_from_auth_parameters(ap).map(|a| format!("{:?}", a));
+                    }
+                    let _ = cr.get_authenticator(&NO_ADDITIONAL_SIGNED_HEADERS).map(|a| format!("{:?}", a));
+                    let made = c::AuthParams {
+                        builder: b2,
+                        signed_headers: list.clone(),
+                        timestamp_str: ts_text.clone(),
+                    };
+                    let _ = cr.get_authenticator_from_auth_parameters(made).map(|a| format!("{:?}", a));
+                    true
+                } else {
+                    false
+                }
+            }));
+            match res {
+                Err(_) => viol(t, "CanonicalRequest routes (from_request_parts / get_auth_parameters / get_authenticator_from_auth_parameters / canonical_request)", format!("builder fields mask {:05b}, timestamp text {:?}, {} signed names, request {}", mask, ts_text, list.len(), crate::json::show_bytes(&hostile.wire.uri))),
+                Ok(true) => t.count("direct/canonical-request-routes"),
+                Ok(false) => t.count("direct/canonical-request-not-built"),
+            }
+        }
     }
 }
 
@@ -874,6 +1061,16 @@ fn stable_api(t: &mut Tally) {
             }
         }
         for len in 0..60 {
+            // multi-byte and odd-edged secrets, larger capacities, the bytes read back
+            for style in 0..5u8 {
+                let mut rr = Rng::keyed(11, "C08", "secret", style as u64, len as u64);
+                let sec = crate::props::c06::secret_of_len(&mut rr, len, style);
+                let _ = KSecretKey::<44>::from_str(&sec).map(|k| (format!("{} {:?}", k, k), k.as_ref().len()));
+                let _ = KSecretKey::<45>::from_str(&sec).is_ok();
+                let _ = KSecretKey::<64>::from_str(&sec).is_ok();
+                let _ = KSecretKey::<4096>::from_str(&sec).is_ok();
+            }
+            let _ = KSecretKey::<4096>::from_str(&"日".repeat(len * 30)).is_ok();
             let s = "k".repeat(len);
             let _ = KSecretKey::<44>::from_str(&s).map(|k| format!("{} {:?}", k, k));
             let _ = KSecretKey::<0>::from_str(&s).is_ok();
@@ -905,14 +1102,26 @@ pub fn run(tier: Tier) -> i32 {
     let pre = preflight();
     let seed = ctx.seed;
     let per = tier.n(4000, 600_000);
+    // a logger at Trace is installed for the whole run (code behind log_enabled! runs everywhere); every fourth shard also
+    // captures, so that the arguments of every log call — Debug renderings of the canonical request, of the authenticator —
+    // are really formatted for hostile inputs
+    crate::exec::install_logger(log::LevelFilter::Trace);
     let mut tally = ctx.par(32, |s| {
         let mut t = Tally::new();
+        let log_on = s % 4 == 0;
         for i in 0..per {
+            if log_on {
+                crate::exec::capture_logs(true);
+            }
             let mut r = Rng::keyed(seed, "C08", "hostile", s, i);
             let case = gen_hostile(&mut r);
             run_case(&mut t, &case, "hostile");
             let case = gen_mutated_valid(seed, s, i);
             run_case(&mut t, &case, "mutated-valid");
+            if log_on {
+                t.add("log_records_formatted_under_hostile_inputs", crate::exec::take_logs().len() as u64);
+                crate::exec::capture_logs(false);
+            }
         }
         // the mixed corpus of the other properties' generators under this monitor
         if s < 8 {
@@ -988,9 +1197,10 @@ pub fn run(tier: Tier) -> i32 {
     ctx.gate("validly signed requests with 1–3 byte-level edits executed", tally.get("executed/mutated-valid"), tier.n(50_000, 6_000_000));
     ctx.gate("presigned requests with non-ASCII digits / text in the authentication parameters", tally.get("executed/presigned-unicode"), tier.n(1500, 50_000));
     ctx.gate("requests in years −1 / 10000 (UTC) that travelled as far as the key provider", tally.get("extreme_year_reached_key_lookup"), tier.n(300, 15_000));
+    ctx.gate("log records formatted while hostile and mutated requests were validated with a trace-level logger", tally.get("log_records_formatted_under_hostile_inputs"), tier.n(20_000, 1_000_000));
     ctx.gate("charset labels executed", tally.get("charset_labels_executed"), LABELS.len() as u64 + 9);
-    ctx.gate("heavy cases (≥ 60 KiB bodies, limit-length URIs) completed in the child process, folding on", tally.get("heavy_fold_on"), 25);
-    ctx.gate("heavy cases completed, folding off", tally.get("heavy_fold_off"), 25);
+    ctx.gate("heavy cases (≥ 60 KiB bodies, limit-length URIs) completed in the child process, folding on", tally.get("heavy_fold_on"), 200);
+    ctx.gate("heavy cases completed, folding off", tally.get("heavy_fold_off"), 30);
     ctx.gate("public builders / conversions / formatting calls", tally.get("stable_api_calls"), 120);
     if cfg!(feature = "unstable-api") {
         ctx.gate("authenticators built directly and validated", tally.get("direct/authenticator"), tier.n(3000, 1_000_000));
